@@ -1,5 +1,98 @@
-(* Model-side operations (inflate/deflate state machines extracted from coq/model).
-   Filled in as the models come online; an op that is not modelled prints nothing. *)
-let reset () = ()
-let exec (_a : string array) (_input : int array ref) (_bytes : string -> int array)
-    (_show : int array -> string) : string option = None
+(* Model-side operations: the extracted state machines of coq/model behind the same op
+   language as the Rust harness.  Only parsing, printing and int<->N conversion live here. *)
+open Mzmodel
+
+let rec pos_of_int (i : int) : positive =
+  if i = 1 then XH else if i land 1 = 0 then XO (pos_of_int (i lsr 1)) else XI (pos_of_int (i lsr 1))
+let n_of_int (i : int) : n = if i = 0 then N0 else Npos (pos_of_int i)
+let rec int_of_pos (p : positive) : int =
+  match p with XH -> 1 | XO q -> 2 * int_of_pos q | XI q -> 2 * int_of_pos q + 1
+let int_of_n (x : n) : int = match x with N0 -> 0 | Npos p -> int_of_pos p
+let int_of_z (x : z) : int = match x with Z0 -> 0 | Zpos p -> int_of_pos p | Zneg p -> - (int_of_pos p)
+let nlist_of_array (a : int array) : n list =
+  let r = ref [] in
+  for i = Array.length a - 1 downto 0 do r := n_of_int a.(i) :: !r done; !r
+let array_of_nlist (l : n list) : int array = Array.of_list (List.map int_of_n l)
+let usize_max = Npos (let rec ones k = if k = 1 then XH else XI (ones (k - 1)) in ones 64)
+
+let fnv_init = 0xcbf29ce484222325L
+let fnv_prime = 0x100000001b3L
+let fnv (a : int array) : int64 =
+  let h = ref fnv_init in
+  Array.iter (fun b -> h := Int64.mul (Int64.logxor !h (Int64.of_int b)) fnv_prime) a; !h
+let fnv_step (h : int64) (x : int) : int64 =
+  let h = ref h in
+  for i = 0 to 7 do
+    h := Int64.mul (Int64.logxor !h (Int64.of_int ((x lsr (8 * i)) land 0xff))) fnv_prime
+  done; !h
+
+let num (s : string) : int = if s = "-" then -1 else int_of_string s
+let lim (s : string) : n = if s = "-" then usize_max else n_of_int (int_of_string s)
+
+let arr_to_array (a : arr) : int array =
+  let n = int_of_n (alen a) in
+  Array.init n (fun i -> int_of_n (aget a (n_of_int i)))
+
+(* ---- registers *)
+let d : dec ref = ref dec_default
+let buf : arr ref = ref (amake N0 N0)
+
+let reset () = d := dec_default; buf := amake N0 N0
+
+let adler_str (r : dec) = match dec_adler32 r with Some x -> string_of_int (int_of_n x) | None -> "-1"
+
+let sched_of (s : string) : (n * n option) list =
+  List.map (fun it ->
+      match String.split_on_char ':' it with
+      | [a; b] -> (n_of_int (num a), if b = "-" then None else Some (n_of_int (num b)))
+      | _ -> failwith "bad sched") (String.split_on_char ',' s)
+
+let exec (a : string array) (_input : int array ref) (bytes : string -> int array)
+    (show : int array -> string) : string option =
+  match a.(0) with
+  | "snap" -> Some "ok"
+  | "buf" -> buf := amake (n_of_int (num a.(1))) (n_of_int (num a.(2))); Some "ok"
+  | "bufset" -> buf := aset_list !buf (n_of_int (num a.(1))) (nlist_of_array (bytes a.(2))); Some "ok"
+  | "dnew" -> d := dec_default; Some "ok"
+  | "dinit" -> d := dec_init !d; Some "ok"
+  | "dcall" -> begin
+      let inp = nlist_of_array (bytes a.(1)) in
+      let pos = num a.(2) in
+      match decompress !d inp !buf (n_of_int pos) (lim a.(3)) (n_of_int (num a.(4))) with
+      | Panic _ -> d := dec_default; buf := amake N0 N0; Some "PANIC"
+      | OutOfFuel -> Some "MODEL-OUT-OF-FUEL"
+      | Ret r ->
+          d := r.cr_dec; buf := r.cr_buf;
+          let b = arr_to_array r.cr_buf in
+          let oc = int_of_n r.cr_out in
+          let lo = min pos (Array.length b) in
+          let hi = min (pos + oc) (Array.length b) in
+          Some (Printf.sprintf "st=%d in=%d out=%d o=%s bh=%016Lx ad=%s"
+                  (int_of_z (status_code r.cr_status)) (int_of_n r.cr_in) oc
+                  (show (Array.sub b lo (hi - lo))) (fnv b) (adler_str r.cr_dec))
+    end
+  | "drive" -> begin
+      let inp = nlist_of_array (bytes a.(1)) in
+      let ring = a.(2) = "ring" in
+      let len = n_of_int (num a.(3)) in
+      let start = if Array.length a <= 7 then None else Some (!d, !buf) in
+      let (w, s) = drive inp ring len (n_of_int (num a.(4))) (n_of_int (num a.(5))) (sched_of a.(6)) start in
+      match w with
+      | WPanic _ -> d := dec_default; buf := amake N0 N0; Some "PANIC"
+      | WFuel -> Some "MODEL-OUT-OF-FUEL"
+      | _ ->
+          d := s.ds_dec; buf := s.ds_buf;
+          let out = array_of_nlist (List.rev s.ds_rout) in
+          let trace = List.rev s.ds_trace in
+          let th = List.fold_left (fun h ((l, ic), oc) ->
+              fnv_step (fnv_step (fnv_step h (int_of_z l + 16)) (int_of_n ic)) (int_of_n oc)) fnv_init trace in
+          let tr = Buffer.create 64 in
+          List.iteri (fun i ((l, ic), oc) ->
+              if i < 40 then Buffer.add_string tr (Printf.sprintf "%d/%d/%d;" (int_of_z l) (int_of_n ic) (int_of_n oc))) trace;
+          let whys = match w with WCap -> "cap" | WEnd -> "end" | WStall -> "stall" | WOutFull -> "outfull" | _ -> "?" in
+          Some (Printf.sprintf "st=%d in=%d out=%d calls=%d why=%s o=%s bh=%016Lx th=%016Lx ad=%s tr=%s"
+                  (int_of_z s.ds_last) (int_of_n s.ds_in_off) (Array.length out) (int_of_n s.ds_calls) whys
+                  (show out) (fnv (arr_to_array s.ds_buf)) th (adler_str s.ds_dec)
+                  (if Buffer.length tr = 0 then "-" else Buffer.contents tr))
+    end
+  | _ -> None
